@@ -46,7 +46,7 @@ class Ctx:
         attr, alph = ENCS[name]
         self.enc = getattr(encodings, attr)
         self.alph = alph
-        self.codes = {c: (ord(c) if name == "base" else i) for i, c in enumerate(alph)}
+        self.codes = {chr(i): i for i in range(128)} if name == "base" else {c: i for i, c in enumerate(alph)}
         self.inv = {v: k for k, v in self.codes.items()}
         self.bnp = bnp
 
@@ -59,7 +59,8 @@ class Ctx:
 
     def rot(self, s, k=1):
         """a different string of the same length (every character replaced by the k-th next of the alphabet)"""
-        return "".join(self.alph[(self.alph.index(c) + k) % len(self.alph)] for c in s)
+        A = self.alph
+        return "".join(A[((A.index(c) if c in A else ord(c)) + k) % len(A)] for c in s)
 
     def other_rows(self):
         return [self.alph[1] + self.alph[0], "", self.alph[2]]
@@ -517,22 +518,27 @@ def is_obs(kind, op):
 # operation generators (from the model state; they produce only operations whose preconditions hold)
 # ----------------------------------------------------------------------------------------------------------------
 
-def slices(n, level):
-    """slice triples for an axis of length n.  full: every start/stop in -n-1..n+1 or None, step in None,2,-1,-2"""
+def slices(n, level, col=False):
+    """slice triples for an axis of length n.
+    full: every start/stop in -n-1..n+1 or None x step in None,2,-1,-2;  mid: start/stop in {None,-n-1,-1,0,1,n+1} x step in
+    None,-1 plus three step-2 forms;  core: five forms."""
     if level == "full":
         vals = [None] + list(range(-n - 1, n + 2))
-        steps = [None, 2, -1, -2]
+        out = [[a, b, c] for a in vals for b in vals for c in [None, 2, -1, -2]]
     elif level == "mid":
-        vals = sorted({-n - 1, -1, 0, 1, n, n + 1} | ({-n} if n else set()) | ({n - 1} if n > 1 else set()))
-        vals = [None] + vals
-        steps = [None, 2, -1]
+        vals = [None, -n - 1, -1, 0, 1, n + 1]
+        out = [[a, b, c] for a in vals for b in vals for c in [None, -1]]
+        out += [[None, None, 2], [1, None, 2], [None, None, -2]]
     else:
         return [[None, None, -1], [1, None, None], [None, -1, None], [None, None, 2], [n, None, None]]
-    return [[a, b, c] for a in vals for b in vals for c in steps]
+    return out
 
 
-def colslices_ok(sl):
-    return True
+def negstart_on_empty(sl, rows):
+    """a[:, start:stop:step] with step < 0, an explicit start >= 0, stop None or negative, on an operand that has an empty row:
+    this whole region fails on the unchanged tree (the empty row yields a neighbouring character, or IndexError)"""
+    return (sl[2] is not None and sl[2] < 0 and sl[0] is not None and sl[0] >= 0 and (sl[1] is None or sl[1] < 0)
+            and any(len(r) == 0 for r in rows))
 
 
 def gen_R(ctx, rows, level, writable=True, want_obs=True):
@@ -562,7 +568,7 @@ def gen_R(ctx, rows, level, writable=True, want_obs=True):
         if n:
             T += [["rf", list(range(n - 1, -1, -1))], ["rf", [0] * 3], ["rf", [n - 1, 0], "list"]]
     # columns
-    T += [["cs", s] for s in slices(M, level)]
+    T += [["cs", s] for s in slices(M, level) if level == "full" or not negstart_on_empty(s, rows)]
     if core:
         T += [["rcs", [1, None, None], [1, None, None]], ["rcs", [None, None, -1], [None, None, -1]]]
     else:
@@ -593,7 +599,7 @@ def gen_R(ctx, rows, level, writable=True, want_obs=True):
     T += [["join", sep, False]]
     if not core:
         T += [["join", sep, True]]
-    if n:
+    if n and want_obs:          # bnp.ragged_slice only as the last step (it fails for every n >= 2 on the unchanged tree)
         T += [["rsl", [min(1, L) for L in lens], [L for L in lens]]]
         if not core:
             T += [["rsl", [0] * n, lens], ["rsl", [0] * n, [max(L - 1, 0) for L in lens]], ["rsl", [L // 2 for L in lens], None],
@@ -718,24 +724,33 @@ GATHER = {"rm", "rf", "cm", "copy", "cat", "join", "rsl", "m", "f", "fci", "spli
 # running one program
 # ----------------------------------------------------------------------------------------------------------------
 
+# regions of the scope that fail as a whole on the unchanged tree get ONE signature (README: "Failures on the unchanged tree")
+COLLAPSE = {"R.cs:negstep-nonneg-start-on-empty-row", "R.rcs:negstep-nonneg-start-on-empty-row"}
+
+
 def classify(kind, op, value):
     """specific sub-class of an operation (keeps distinct defects apart in the signature)"""
     k = op[0]
     name = "%s.%s" % (kind, k)
-    if k in ("cs", "rcs", "rics") or (kind == "F" and k == "s") or k == "rs":
-        sl = op[1] if k in ("cs", "s", "rs") else op[2]
-        step = sl[2]
-        if step is not None and step < 0:
-            name += ":negstep" + ("-start" if sl[0] is not None else "") + ("-stop" if sl[1] is not None else "")
+    if k == "cs" and negstart_on_empty(op[1], value):
+        name += ":negstep-nonneg-start-on-empty-row"
+    if k == "rcs" and negstart_on_empty(op[2], value[S(op[1])]):
+        name += ":negstep-nonneg-start-on-empty-row"
     if k in ("as_row", "as_item", "as_col", "as_fcol", "as_i", "as_s", "as_cs", "as_rs", "as_rm", "as_rf"):
         name += ":" + str(op[-1])
     if k == "cat":
         name += ":" + op[1]
     if k in ("eq_rows", "ne_rows", "eq_str", "ne_str"):
         name += ":" + op[2]
-    if k == "rsl":
-        name += ":noends" if op[2] is None else ""
+    if k == "sa" and value and not any(value):
+        name += ":all-rows-empty"
     return name
+
+
+def signature(step, failtype):
+    if step in COLLAPSE:
+        return step + ":wrong-result-or-exception"
+    return "%s:%s" % (step, failtype)
 
 
 def build_base(ctx, kind, base, copy):
@@ -780,26 +795,26 @@ def run_program(col, ctx, kind, base, copy, prog, count=True):
         obj = build_base(ctx, kind, base, copy)
         bad = check_value(ctx, kind, obj, value)
         if bad:
-            col.fail("%s:%s" % (step, bad[0]), case, "step 0 (as_encoded_array): " + bad[1])
+            col.fail(signature(step, bad[0]), case, "step 0 (as_encoded_array): " + bad[1])
             return False
         for si, op in enumerate(prog):
             step = classify(kind, op, value)
             if is_obs(kind, op):
                 exp, got = OBS[kind](ctx, obj, value, op)
                 if exp != got:
-                    col.fail("%s:wrong-result" % step, case, "step %d %r on %r: got %r expected %r" % (si + 1, op, value, got, exp))
+                    col.fail(signature(step, "wrong-result"), case, "step %d %r on %r: got %r expected %r" % (si + 1, op, value, got, exp))
                     return False
                 continue
             nkind, nvalue = (model_R if kind == "R" else model_F)(ctx, value, op)
             nobj = (real_R if kind == "R" else real_F)(ctx, obj, value, op)
             bad = check_value(ctx, nkind, nobj, nvalue)
             if bad:
-                col.fail("%s:%s" % (step, bad[0]), case, "step %d %r on %r: %s" % (si + 1, op, value, bad[1]))
+                col.fail(signature(step, bad[0]), case, "step %d %r on %r: %s" % (si + 1, op, value, bad[1]))
                 return False
             kind, value, obj = nkind, nvalue, nobj
     except Exception as e:
         import traceback
-        col.fail("%s:exception:%s" % (step, type(e).__name__), case, "%r\n%s" % (prog, traceback.format_exc()[-450:]))
+        col.fail(signature(step, "exception:" + type(e).__name__), case, "%r\n%s" % (prog, traceback.format_exc()[-450:]))
         return False
     return True
 
@@ -855,91 +870,77 @@ def shapes(N, M):
 
 
 REPR_SHAPES = [(), (0,), (2,), (0, 0), (3, 1), (0, 2), (2, 0, 3), (1, 1, 1), (0, 3, 0), (3, 2, 1), (2, 2), (1, 0, 0, 2)]
+ENCS_MAIN = ["base", "dna"]
+ENCS_OTHER = ["acgtn", "rna", "amino", "bam", "cigar", "strand"]
+
+
+def plan(tier):
+    """the enumeration as a list of phases: (label, encodings, kind, bases-as-shapes, copy flags, depth, last level, sample size)"""
+    q = tier == "quick"
+    small = shapes(2, 3) if q else shapes(3, 3)
+    P = []
+    # depth 0/1 ------------------------------------------------------------------------------------------------------
+    P.append(("d1-all-shapes", ["base"], "R", shapes(3, 3) if q else shapes(4, 3), [False], 1, "mid" if q else "full", None))
+    P.append(("d1-full", ENCS_MAIN if q else ["dna"], "R", sorted(set(REPR_SHAPES + small)) if q else shapes(3, 3), [False], 1, "full", None))
+    P.append(("d1-flat", ENCS_MAIN, "F", [(L,) for L in range(0, 5 if q else 6)], [False, True], 1, "full", None))
+    P.append(("d1-other-encodings", ENCS_OTHER, "R", REPR_SHAPES, [False], 1, "core" if q else "mid", None))
+    P.append(("d1-other-encodings-flat", ENCS_OTHER, "F", [(0,), (1,), (3,)], [True], 1, "mid", None))
+    # depth 2 --------------------------------------------------------------------------------------------------------
+    P.append(("d2", ["base"], "R", REPR_SHAPES if q else shapes(3, 2), [False], 2, "core" if q else "mid", None))
+    P.append(("d2", ["dna"], "R", [(0, 2), (3, 1), (2, 0, 3), (0, 0), (1, 0, 0, 2)] if q else REPR_SHAPES, [False], 2, "core" if q else "mid", None))
+    P.append(("d2-flat", ENCS_MAIN, "F", [(L,) for L in range(0, 4)], [True], 2, "core" if q else "mid", None))
+    P.append(("d2-other-encodings", ENCS_OTHER, "R", [(2, 0, 3)] if q else [(2, 0, 3), (0, 2), (3, 1)], [False], 2, "core", 400 if q else None))
+    P.append(("d2-other-encodings-flat", ENCS_OTHER, "F", [(3,)], [True], 2, "core", 150 if q else None))
+    # depth 3 (sampled with the seed: the space of CORE x CORE x (CORE + observations) is ~65 000 programs per shape) ----
+    P.append(("d3", ENCS_MAIN, "R", REPR_SHAPES, [False], 3, "core", 300 if q else 9000))
+    P.append(("d3-flat", ENCS_MAIN, "F", [(0,), (2,), (3,)], [True], 3, "core", 300 if q else 4000))
+    return P
 
 
 def run(tier="quick", seed=0):
-    quick = tier == "quick"
+    import os
     col = Collector("C07", tier, seed,
-                    "programs = (encoding, base list of strings / base string, <=3 operations); every program is run from scratch and the "
-                    "contract (class, encoding, decoded value == same operation on the Python list of strings) is evaluated after every step. "
-                    "depth 1: all row-length shapes x FULL operation set (every slice start/stop in -n-1..n+1|None x step None,2,-1,-2; every "
-                    "mask; every fancy list of <=2 indices; every item; all assignments/observations); depth 2: CORE x MID; depth 3: CORE x CORE "
-                    "x (CORE+observations) on representative shapes. distinct = distinct (encoding, base, program); all are non-trivial "
-                    "except programs on an empty base")
-    N1, M1 = (3, 3) if quick else (4, 3)
-    N2, M2 = (3, 2) if quick else (3, 3)
-    encs_main = ["base", "dna"]
-    encs_other = ["acgtn", "rna", "amino", "bam", "cigar", "strand"]
-    col.bounds = {"encodings": encs_main + encs_other, "depth1_rows": "0..%d" % N1, "depth1_row_len": "0..%d" % M1,
-                  "depth2_rows": "0..%d" % N2, "depth2_row_len": "0..%d" % M2, "depth3_shapes": REPR_SHAPES,
-                  "flat_len": "0..%d" % (4 if quick else 5), "program_len": 3,
-                  "depth3": "seeded sample in the quick tier, exhaustive over CORE ops in the thorough tier",
-                  "other_encodings": "depth 1 MID + depth 2 CORE on representative shapes"}
-    ctxs = {n: Ctx(n) for n in encs_main + encs_other}
-
-    def sweep(ctx, kind, base, copy, depth, last_level, inner="core", sample=None):
-        progs = enumerate_programs(ctx, kind, base, copy, depth, last_level, inner)
-        if sample is not None:
-            progs = list(progs)
-            if len(progs) > sample:
-                progs = col.rng.sample(progs, sample)
-        for prog in progs:
-            run_program(col, ctx, kind, base, copy, prog)
-        return not col.out_of_time()
-
-    ok = True
-    # ---- depth 0/1, main encodings: every shape, FULL operation set
-    for en in encs_main:
-        ctx = ctxs[en]
-        for sh in shapes(N1, M1):
-            if not ok:
+                    "program = (encoding, base list of strings or base string, <=3 operations of the statement); every program is run from "
+                    "scratch on the real classes and the contract (class/rank, encoding == operand encoding, decoded value == the same "
+                    "operation on the Python list of strings) is evaluated after every step. Exhaustive for depth <= 2 over the stated shapes "
+                    "and operation sets (FULL: every slice start/stop in -n-1..n+1|None x step None,2,-1,-2, every mask, every fancy list of "
+                    "<=2 indices, every item, all assignment and observation forms; MID/CORE: stated subsets); depth 3 is a seeded sample. "
+                    "distinct = distinct (encoding, base, program)")
+    P = plan(tier)
+    col.bounds = {"encodings": ENCS_MAIN + ENCS_OTHER, "program_len": "0..3", "rows": "0..3 (quick), 0..4 (thorough)", "row_len": "0..3",
+                  "flat_len": "0..4 (quick), 0..5 (thorough)",
+                  "phases": [{"phase": p[0], "encodings": p[1], "kind": p[2], "n_bases": len(p[3]), "depth": p[5], "last_op_set": p[6],
+                              "sample_per_base": p[7]} for p in P]}
+    ctxs = {n: Ctx(n) for n in ENCS_MAIN + ENCS_OTHER}
+    debug = os.environ.get("C07_DEBUG")
+    import time
+    for label, encs, kind, shs, copies, depth, last, sample in P:
+        t0, e0 = time.time(), col.evaluations
+        for en in encs:
+            ctx = ctxs[en]
+            for sh in shs:
+                base = ctx.fill(sh, salt=0 if en in ENCS_MAIN else 1)
+                if kind == "F":
+                    base = base[0]
+                for copy in copies:
+                    if depth == 1:
+                        run_program(col, ctx, kind, base, copy, [])
+                    progs = enumerate_programs(ctx, kind, base, copy, depth, last)
+                    if sample is not None:
+                        progs = list(progs)
+                        if len(progs) > sample:
+                            progs = col.rng.sample(progs, sample)
+                    for prog in progs:
+                        run_program(col, ctx, kind, base, copy, prog)
+                if col.out_of_time():
+                    break
+            if not col.exhaustive:
                 break
-            base = ctx.fill(sh)
-            run_program(col, ctx, "R", base, False, [])
-            ok = sweep(ctx, "R", base, False, 1, "full" if (not quick or len(sh) <= 2 or max(sh) <= 2) else "mid")
-        for L in range(0, (4 if quick else 5) + 1):
-            if not ok:
-                break
-            s = ctx.fill([L])[0]
-            for copy in (False, True):
-                run_program(col, ctx, "F", s, copy, [])
-                ok = sweep(ctx, "F", s, copy, 1, "full")
-    # ---- other encodings: depth 1 MID on representative shapes, depth 2 core
-    for en in encs_other:
-        ctx = ctxs[en]
-        for sh in REPR_SHAPES:
-            if not ok:
-                break
-            base = ctx.fill(sh, salt=1)
-            ok = sweep(ctx, "R", base, False, 1, "mid")
-            if sh in ((2, 0, 3), (0, 2), (3, 1)):
-                ok = ok and sweep(ctx, "R", base, False, 2, "core")
-        for L in (0, 1, 3):
-            s = ctx.fill([L], salt=1)[0]
-            ok = ok and sweep(ctx, "F", s, True, 1, "mid")
-            ok = ok and sweep(ctx, "F", s, True, 2, "core")
-    # ---- depth 2, main encodings: CORE then MID(+observations)
-    for en in encs_main:
-        ctx = ctxs[en]
-        for sh in shapes(N2, M2):
-            if not ok:
-                break
-            ok = sweep(ctx, "R", ctx.fill(sh), False, 2, "mid")
-        for L in range(0, 4):
-            if not ok:
-                break
-            ok = sweep(ctx, "F", ctx.fill([L])[0], True, 2, "mid")
-    # ---- depth 3 on representative shapes
-    for en in encs_main:
-        ctx = ctxs[en]
-        for sh in REPR_SHAPES:
-            if not ok:
-                break
-            ok = sweep(ctx, "R", ctx.fill(sh), False, 3, "mid" if not quick else "core", sample=(400 if quick else None))
-        for L in (0, 2, 3):
-            if not ok:
-                break
-            ok = sweep(ctx, "F", ctx.fill([L])[0], True, 3, "mid" if not quick else "core", sample=(300 if quick else None))
+        if debug:
+            print("phase %-26s %-12s %7d programs %6.1f s" % (label, ",".join(encs)[:12], col.evaluations - e0, time.time() - t0))
+        if not col.exhaustive:
+            col.undecided.append("time budget exhausted in phase %s" % label)
+            break
     return col.result()
 
 
